@@ -280,15 +280,6 @@ func check(c Case) (res result, err error) {
 			if tt == token.INT || tt == token.FLOAT {
 				res.special = true
 			}
-			if tt == token.ILLEGAL {
-				// the property names identifiers, numbers and operators; for an illegal byte only the span is checked
-				// (the lexer renders a byte >= 0x80 as the rune of that value).
-				if len(span) != 1 || (lit != string(span) && lit != string(rune(span[0]))) {
-					return res, fmt.Errorf("input %q: ILLEGAL token %q spans %q", in, lit, span)
-				}
-				prevEnd = end
-				continue
-			}
 			if lit != string(span) {
 				return res, fmt.Errorf("input %q (line mode %v): token %s at [%d,%d) has literal %q but spans %q: bytes lost or invented",
 					in, c.LineMode, tok.DebugString(), start, end, lit, span)
